@@ -78,6 +78,8 @@ func c18Groups() []c18Group {
 	var nilCh chan int
 	var nilMap map[string]int
 	var nilSl []int
+	backing := []int{1, 2, 3, 4}
+	bbytes := []byte("abcdef")
 	var nilF func()
 	m1 := map[string]int{"a": 1, "b": 2}
 	m1b := map[string]int{"b": 2, "a": 1}
@@ -111,6 +113,9 @@ func c18Groups() []c18Group {
 		{"nested", T(c18N{}), []interface{}{c18N{s1, []int{1}, m1}, c18N{s1b, []int{1}, m1b}, c18N{s2, []int{1}, m1}, c18N{s1, []int{1, 2}, m1}, c18N{nil, nil, nil}, c18N{s1, []int{}, nil}}},
 		{"array", T([3]int{}), []interface{}{[3]int{1, 2, 3}, [3]int{1, 2, 3}, [3]int{1, 2, 4}, [3]int{}}},
 		{"slice", T([]int{}), []interface{}{[]int{1, 2}, []int{1, 2}, []int{2, 1}, []int{}, nilSl, []int{1}}},
+		// slices that share a backing array and a start but differ in length, and equal windows at different offsets
+		{"subslice", T([]int{}), []interface{}{backing[:2], backing[:3], backing[:4], backing[1:3], []int{2, 3}, backing[:0]}},
+		{"subbytes", T([]byte{}), []interface{}{bbytes[:2], bbytes[:3], bbytes[2:4], []byte("ab")}},
 		{"strslice", T([]string{}), []interface{}{[]string{"a"}, []string{"a"}, []string{"b"}, []string{}}},
 		{"map", T(m1), []interface{}{m1, m1b, m2, map[string]int{}, nilMap}},
 		{"ptr", T(s1), []interface{}{s1, s1b, s2, nilS}},
